@@ -1,4 +1,5 @@
 (* C18 - Statement.get_type() names the statement's leading DML/DDL keyword. *)
+From SqlModel.Props Require C18b.   (* the unbounded pipeline-level barrier theorem *)
 From SqlModel Require Import Base PyStr Node.
 From SqlModel.Acc Require Import Accessors AccFacts.
 From SqlModel.Inst Require Import CaseInv C18Fin.
